@@ -22,3 +22,28 @@ pub mod transport;
 pub use crate::diameter::flags;
 pub use crate::diameter::{ApplicationId, CommandCode, DiameterHeader, DiameterMessage};
 pub use crate::error::{Error, Result};
+
+/// Event log for the external verification harness (feature `verif-hooks`).
+#[cfg(feature = "verif-hooks")]
+pub mod verif {
+    use std::sync::Mutex;
+
+    #[derive(Debug, Clone, PartialEq)]
+    pub enum Event {
+        Registered(u32),
+        SendRefused(u32),
+        Removed(u32, bool),
+        Delivered(u32, bool),
+        ReaderStopped,
+    }
+
+    static LOG: Mutex<Vec<Event>> = Mutex::new(Vec::new());
+
+    pub fn emit(e: Event) {
+        LOG.lock().unwrap().push(e);
+    }
+
+    pub fn take_events() -> Vec<Event> {
+        std::mem::take(&mut *LOG.lock().unwrap())
+    }
+}
